@@ -187,8 +187,9 @@ def run(ctx):
             self.events = []
 
         def after_assign(self, it, st, stmt, av):
-            if isinstance(stmt.value, ast.List) and not stmt.value.elts and isinstance(stmt, ast.Assign) and isinstance(stmt.targets[0], ast.Name):
-                st.env[it.var(stmt.targets[0].id)] = AV("unk", truth=False, none=False, tags=frozenset({"list"}))
+            tgt = stmt.targets[0] if isinstance(stmt, ast.Assign) else stmt.target
+            if isinstance(stmt.value, ast.List) and not stmt.value.elts and isinstance(tgt, ast.Name):
+                st.env[it.var(tgt.id)] = AV("unk", truth=False, none=False, tags=frozenset({"list"}))
 
         def for_iter(self, it, st, stmt, itv):
             ck = ("iters", stmt.lineno)
@@ -199,6 +200,8 @@ def run(ctx):
             s.ts[ck] = n + 1
             if isinstance(stmt.target, ast.Tuple):
                 s.ts["curkey"] = f"key@{stmt.lineno}"
+                if itv.sym == "cert['subjectAltName']":
+                    s.ts["sankey"] = f"key@{stmt.lineno}"
                 it.assign(s, stmt.target, AV("tuple", (AV("unk", sym=f"key@{stmt.lineno}"), AV("unk", sym=f"value@{stmt.lineno}")), truth=True, none=False))
             else:
                 it.assign(s, stmt.target, AV("unk", sym=f"sub@{stmt.lineno}"))
@@ -212,7 +215,10 @@ def run(ctx):
                 s = st.copy()
                 hip = s.view(s.env.get(it.var(host_ip_name), UNK))
                 keyv = s.view(pos[0]) if pos else UNK
-                s.ts["consults"] = s.ts.get("consults", ()) + ((t, hip.none, self._key_of(s, it), s.view(s.env.get(it.var(list_name), UNK)).truth,
+                # has this path been through a subjectAltName entry of a kind that identifies the server (dNSName / iPAddress)?
+                sk = s.ts.get("sankey")
+                san_seen = any(s.ts.get(("cmp", sk, "==", repr(kind))) is True for kind in ("DNS", "IP Address")) if sk else False
+                s.ts["consults"] = s.ts.get("consults", ()) + ((t, hip.none, self._key_of(s, it), san_seen,
                                                                s.facts.get("p:hostname_checks_common_name", (None, None))[0]),)
                 return [Out("normal", s, AV("unk", sym=f"match@{len(s.ts['consults'])}"))]
             if isinstance(node.func, ast.Attribute) and node.func.attr == "append" and recv is not None and "list" in recv.tags:
@@ -220,6 +226,8 @@ def run(ctx):
                 if isinstance(node.func.value, ast.Name):
                     s.env[it.var(node.func.value.id)] = AV("unk", truth=True, none=False, tags=frozenset({"list"}))
                 return [Out("normal", s, const(None))]
+            if isinstance(node.func, ast.Attribute) and node.func.attr == "get" and recv is not None and recv.sym == "p:cert" and pos and pos[0].kind == "const":
+                return [Out("normal", st, AV("unk", sym=f"cert[{pos[0].val!r}]"))]
             if t in ("cert.get", "len", "map", "repr", "hostname.rfind"):
                 return [Out("normal", st, AV("unk", sym=f"v:{t}@{node.lineno}"))]
             q = it.resolve_callee(node, recv)
@@ -236,15 +244,12 @@ def run(ctx):
 
     # locals by role, not by name
     host_ip_name = None
-    list_name = None
     for n_ in astq.walk_fn(mh.node):
         if isinstance(n_, ast.Assign) and isinstance(n_.targets[0], ast.Name):
             if isinstance(n_.value, ast.Call) and astq.call_text(n_.value) == "ipaddress.ip_address":
                 host_ip_name = n_.targets[0].id
-            if isinstance(n_.value, ast.List) and not n_.value.elts:
-                list_name = n_.targets[0].id
-    if host_ip_name is None or list_name is None:
-        raise AnalysisError("match_hostname: parsed-host-IP local / seen-names list not found")
+    if host_ip_name is None:
+        raise AnalysisError("match_hostname: the local holding the parsed host IP was not found")
     drule = DispatchRule()
     outs, it = run_function(m, mh, drule, params={"cert": AV("unk", sym="p:cert", truth=True, none=False)}, record_decisions=True)
     ctx.states += it.budget.steps
@@ -265,7 +270,7 @@ def run(ctx):
                 why = "a DNS subjectAltName is matched against an IP-address host"
             elif key == "'commonName'":
                 ok = hip_none is True and cn_flag is True and dn_truth is False
-                why = "commonName is consulted although it was not enabled, the host is an IP, or subjectAltNames exist"
+                why = "commonName is consulted although it was not enabled, the host is an IP, or a dNSName / iPAddress subjectAltName was seen on this path (RFC 6125: the SAN extension, when it identifies the server, is the only source of names)"
             else:
                 ok, why = False, f"name matcher consulted under key {key}"
             ctx.ob(R4, mh.qual, f"{fn} consulted with host-is-IP={None if hip_none is None else (not hip_none)} key={key} SAN-seen={dn_truth} CN-enabled={cn_flag}", ok, "" if ok else why, node=mh.node)
